@@ -320,7 +320,7 @@ def classify_reject(trace_lines, bad, scenario):
     """Signature of an unexplained line (the verdict is TLC's; this only names the class of the input)."""
     ev = bad["ev"]
     a = bad.get("a", {})
-    top = None
+    top, up, poisoned, pending = None, False, False, False
     for ln in trace_lines:
         if ln is bad:
             break
@@ -329,6 +329,16 @@ def classify_reject(trace_lines, bad, scenario):
             up = ln["a"]["up"]
         elif ln["ev"] == "ChainGrow":
             top = ln["a"]["top"]
+        elif ln["ev"] == "LookupCall" and up and ln["a"]["i"] > top:
+            pending = True
+        elif ln["ev"] == "PushCall" and up and ln["a"]["v"]["setIdx"] > top:
+            pending = True
+        elif ln["ev"] in ("LookupRet", "PushRet") and pending:
+            poisoned, pending = True, False
+    if poisoned and ev in ("LookupRet", "CurrentRet", "PushRet", "AppendRet", "State") and a.get("res", {}).get("tag") != "panic":
+        # an index that does not exist on chain was asked for earlier in this trace (the chain answering): the code
+        # has cached key-less sets for it, every later disagreement of this trace is a consequence of that
+        return "reject/%s/after-index-not-on-chain-was-cached-as-empty-set" % ev
     if ev in ("LookupRet", "CurrentRet", "FreeRet"):
         res = a.get("res", {})
         if res.get("tag") == "panic":
